@@ -15,7 +15,7 @@ func init() { register("C09", checkC09) }
 func checkC09(p *Prog, r *Result, tier string) {
 	r.Technique = "unit/shape rules on the fold over the plugin answers (a Go map, so the order is arbitrary): who-returns rule on the merge function, per-field term analysis of every merged entry literal, divisor rule in the caller"
 	r.Explanation = "The caller folds the answers with acc = merge(acc, answer) starting from nil and then divides Rate and Usage of every entry by its Weight (FOLD, DIV). For the quotient to be the weight-averaged value independent of the answer order, every entry the merge function returns must carry weight-scaled sums: " +
-		"UN1 the merge function never returns one of its parameters as it is (an unscaled first answer) — every returned map is built locally; UN2 in every entry literal it builds, Rate and Usage are sums whose terms are either a field of the accumulator entry (already scaled) or `x.F * x.Weight` of one answer entry, Weight is the sum of the Weight fields of all its sources, Capacity is the minimum over (or the only one of) its sources; UN3 a node is kept only when the other operand has it too (lookup with ok-check)."
+		"UN1 the merge function never returns one of its parameters as it is (an unscaled first answer) — every returned map is built locally; UN2 in every entry literal it builds, Rate and Usage are sums whose terms are either a field of the accumulator entry (already scaled) or `x.F * x.Weight` of one answer entry, Weight is the sum of the Weight fields of all its sources, Capacity is the minimum over (or the only one of) its sources; UN3 a node is kept only when the other operand has it too (lookup with ok-check); UN4 the branch that copies a single answer is guarded by `acc == nil` (nothing merged yet), never by emptiness; FOLD2 every call of the merge function passes (accumulator, answer) in that order."
 	r.NotCovered = "floating-point non-associativity of the sums; a plugin answering with weight 0; plugins that fail (the call helper's policy)"
 	r.Assumptions = []string{"the accumulator is only ever produced by the merge function itself (checked by FOLD)", "A5 no NaN/Inf in usage/rate"}
 	r.min("FOLD", 1)
@@ -23,6 +23,8 @@ func checkC09(p *Prog, r *Result, tier string) {
 	r.min("UN1", 1)
 	r.min("UN2", 2)
 	r.min("UN3", 1)
+	r.min("UN4", 1)
+	r.min("FOLD2", 1)
 	G := p.Fn("resource/cobalt.Manager.GetNodesDeployCapacity")
 	M := p.Fn("resource/cobalt.Manager.mergeCapacity")
 	if G == nil || M == nil {
@@ -255,6 +257,52 @@ func checkC09(p *Prog, r *Result, tier string) {
 	})
 	if nlit == 0 {
 		r.undecided("UN2", M.Name+" / entry literals", p.pos(M.Decl), "no NodeDeployCapacity literal found")
+	}
+	// ---- UN4: the one-source path (first answer) is taken exactly when the accumulator is nil — "nothing merged yet" —
+	// never when it is merely empty: an empty accumulator is a genuine empty intersection and must stay empty
+	{
+		n4 := 0
+		ast.Inspect(M.Body, func(n ast.Node) bool {
+			is, ok := n.(*ast.IfStmt)
+			if !ok {
+				return true
+			}
+			// does the then-branch build entries from the answer alone (range over the answer, no lookup in the accumulator)?
+			rangesAns, usesAcc := false, false
+			ast.Inspect(is.Body, func(x ast.Node) bool {
+				if rs, ok := x.(*ast.RangeStmt); ok && M.objOf(rs.X) == ansP {
+					rangesAns = true
+				}
+				if id, ok := x.(*ast.Ident); ok && M.objOf(id) == accP {
+					usesAcc = true
+				}
+				return true
+			})
+			if !rangesAns || usesAcc {
+				return true
+			}
+			n4++
+			be, ok := unparen(is.Cond).(*ast.BinaryExpr)
+			good := ok && be.Op == token.EQL && ((M.objOf(be.X) == accP && isNilIdent(be.Y)) || (M.objOf(be.Y) == accP && isNilIdent(be.X)))
+			r.check(good, "UN4", fmt.Sprintf("%s / first-answer path #%d is taken only for a nil accumulator", M.Name, n4), p.pos(is), "guard is `acc == nil`",
+				"the path that copies one answer is guarded by `"+exprStr(is.Cond)+"`, not by `acc == nil`: an accumulator that is empty because two plugins offered disjoint node sets (or one offered none) is mistaken for 'nothing merged yet' and the next answer's nodes are offered although an earlier plugin did not offer them; the outcome then depends on the answer order")
+			return true
+		})
+		if n4 == 0 {
+			r.undecided("UN4", M.Name+" / first-answer path", p.pos(M.Decl), "no branch that copies a single answer found: the fold from a nil accumulator cannot start")
+		}
+	}
+	// ---- FOLD2: every call of the merge function passes the accumulator first and one answer second
+	{
+		nc := 0
+		for _, fn := range p.sortedFuncs("resource/cobalt") {
+			for _, c := range fn.calls(func(f *types.Func) bool { return f == M.Obj }) {
+				nc++
+				good := fn == G && len(c.Args) == 2 && accObj != nil && G.objOf(c.Args[0]) == accObj && !G.usesObj(c.Args[1], accObj)
+				r.check(good, "FOLD2", fmt.Sprintf("%s / merge call #%d passes (accumulator, answer)", fn.Name, nc), p.pos(c), "merge(acc, answer)",
+					"merge is asymmetric in its operands (the first is already weight-scaled, the second is raw): a call with the operands in another order adds a raw answer unscaled and scales the accumulator again")
+			}
+		}
 	}
 	// UN3: the two-operand path keeps a node only under an ok-checked lookup in the other operand
 	{
